@@ -696,6 +696,26 @@ func runUnsat(c *Ctx) {
 		}
 	}
 
+	// the rendering of a Value shows its type as itself (or its String()): Name()/PkgPath() are empty for every unnamed
+	// type and Kind() merges all types of a kind, so a missing `[]string` parameter would not be named by the message
+	if vs := p.Method(p.Arg, "Value", "String"); vs != nil {
+		proj := ""
+		p.RegionInstrs(vs, func(in ssa.Instruction) {
+			cl, ok := in.(*ssa.Call)
+			if !ok || !cl.Common().IsInvoke() || core.TypeStr(cl.Common().Value.Type()) != "reflect.Type" {
+				return
+			}
+			if fr, ok := core.AsFieldLoad(cl.Common().Value); ok && fr.Owner == "Value" && fr.Field == "Type" {
+				if m := cl.Common().Method.Name(); m != "String" {
+					proj = "reflect.Type." + m + "() at " + p.InstrPos(in)
+				}
+			}
+		})
+		c.R.Func(core.FuncName(vs))
+		c.R.Add("UNSAT-U6", "Value.String|type-as-itself", core.FuncName(vs), p.Pos(vs.Pos()), proj == "",
+			"a Value is rendered with its type itself (or its String()), not through a coarser projection of it", ternary(proj == "", "the type / String()", "rendered through "+proj))
+	}
+
 	// ---- U7: resolver: late unsatisfied detection precedes any execution
 	rlit, rfields := errLiteral(res)
 	if rlit == nil {
